@@ -397,7 +397,10 @@ def r19e(ctx, run):
             if c is None:
                 return None
             return [cls(x) for x in c] + [cls("NoClass")] * (8 - len(c))
+        local_fns = {g_.qual.rsplit("::", 1)[-1]: g_ for g_ in ctx.syn.fns_in("codegen/src/convert/abi/x86_64.rs") if g_.body is not None and not g_.in_test and g_.qual != f.qual}
         it = SymInterp(
+            # helpers of the same file that fn_ty_to_abi is split into run from their own source
+            resolver=lambda path: local_fns.get(path.rsplit("::", 1)[-1]) if path.rsplit("::", 1)[-1] not in ("classify_arg", "split_aggregate") else None,
             funcs={"classify_arg": classify, "FnAbi::new": lambda i, a: Obj("FnAbi", args=[], ret=None),
                    "PassMode::cast": lambda i, a: Term("regs"), "PassMode::direct": lambda i, a: Term("direct"),
                    "PassMode::indirect_by_val": lambda i, a: Term("memory"), "split_aggregate": lambda i, a: Term("split"),
